@@ -94,6 +94,8 @@ var foreignNames = func(fileName string) []string {
 	return []string{"", "other.txt", fileName + ".bak", "x" + base + "-1700000000000000000" + ext, base + "_17" + ext, base + "-1700000000000000000" + ext + ".gz"}
 }
 
+const foreignContent = "not an event\n"
+
 // ---------- payloads ----------
 // sequential / concurrent cases: the first byte is the event's key (1..127, unique in the case), every other byte is
 // >= 128, so a fragment of an event can never be completed by what follows it.
@@ -219,7 +221,11 @@ func listDir(dir string, ns namespace, tok func([]byte) []int, foreign []int, fn
 		if err != nil {
 			continue
 		}
-		fobs = append(fobs, [2]int{f, int(fi.Mode().Perm())})
+		m := int(fi.Mode().Perm())
+		if b, err := os.ReadFile(filepath.Join(dir, fnames[f])); err != nil || string(b) != foreignContent {
+			m = 0o7777 // content changed: reported as an impossible mode so that the comparison fails
+		}
+		fobs = append(fobs, [2]int{f, m})
 	}
 	return
 }
@@ -337,7 +343,7 @@ func execSeq(c Case, root string) (res result) {
 		}
 		dm = 0o750
 		for _, f := range c.Cfg.Foreign {
-			if err := os.WriteFile(filepath.Join(dir, fnames[f]), []byte("not an event\n"), 0o644); err != nil {
+			if err := os.WriteFile(filepath.Join(dir, fnames[f]), []byte(foreignContent), 0o644); err != nil {
 				panic(err)
 			}
 		}
